@@ -28,7 +28,7 @@ theorem group_segments_grow (sidxOf : Item → Option Sidx) (items : List Item) 
 
 /-- **styp delimits**: every styp box opens a new segment that starts at the styp's position -/
 theorem styp_opens_segment (st : St) (it : Item) (sidxOf : Item → Option Sidx) (hk : it.kind = .styp) :
-    ∃ st', addChild st it sidxOf = some st' ∧ st'.segs = st.segs ++ [{ startPos := it.pos, hasStyp := true }] :=
+    ∃ st', addChild st it sidxOf = some st' ∧ st'.segs = st.segs ++ [{ startPos := it.pos, hasStyp := true, stypSize := it.size }] :=
   Segments.styp_opens_segment st it sidxOf hk
 
 /-- **default mode** (no sidx, no tfra, flag off): a moof opens a segment only when none exists yet -/
@@ -80,6 +80,82 @@ theorem sidx_tiles (starts sizes : List Nat) (hl : starts.length = sizes.length)
 /-- non-vacuity: three contiguous segments of sizes 10, 20, 30 starting at byte 100 -/
 example : ([100, 110, 130] : List Nat).getD 0 0 + refStart [10, 20, 30] 2 = 130 := by decide
 
+/-- **the sizes UpdateSidx uses are the sizes that are written, and a new index sits at the first byte of the media**:
+    a gap-free run of segment boxes (styp / emsg / moof / mdat) starting at byte `p`, grouped by `File.AddChild` under
+    any delimiter configuration, no index yet. Then `UpdateSidx(addIfNotExists)` (1) places the new sidx directly in
+    front of a box of the file that sits at byte `p` — whatever kind of box opens the first segment —, with
+    first_offset 0, and (2) fills it with `MediaSegment.Size()` of every segment, and those references tile the run:
+    reference `i` starts at the first byte of segment `i`, all of them end at the last byte of the run. -/
+theorem updateSidx_new_index_tiles (sidxOf : Item → Option Sidx) (all items : List Item) (st0 st : St) (p : Nat)
+    (others : List Nat) (o : IndexOut)
+    (h0 : st0.segs = []) (hc : Contig items p) (hm : ∀ it ∈ items, segmentBox it.kind = true)
+    (h : groupItems st0 sidxOf items = some st) (hs : st.sidxs = [])
+    (hu : updateSidx all st true others = .index o) :
+    o.firstOffset = 0 ∧
+    (∃ j x, o.insertAt = some j ∧ all[j]? = some x ∧ x.pos = p) ∧
+    o.sizes = st.segs.map Seg.size ∧
+    (∀ i (hi : i < st.segs.length), p + refStart o.sizes i = (st.segs[i]).startPos) ∧
+    p + o.sizes.sum = p + (items.map (·.size)).sum := by
+  have hinv : Inv st p (p + (items.map (·.size)).sum) :=
+    group_inv sidxOf items st0 st p p hc hm ⟨by simp [h0, Tiles], by simp [h0]⟩ h
+  obtain ⟨r1, r2⟩ := tiles_refs st.segs p _ hinv.1
+  unfold updateSidx at hu
+  split at hu
+  · cases hu
+  · simp only [hs, ne_eq, not_true_eq_false, if_false, Bool.not_true, Bool.false_eq_true] at hu
+    split at hu
+    · cases hu
+    · rename_i j hj
+      simp only [UpdOut.index.injEq] at hu
+      subst hu
+      obtain ⟨x, hx, hp⟩ := insertIdx_at_start all st p _ j hinv hj
+      exact ⟨rfl, ⟨j, x, rfl, hx, hp⟩, rfl, r1, r2⟩
+
+/-- **an existing index is refilled with the written sizes**: same run of segment boxes; the references (from the
+    first byte of the run) tile it -/
+theorem updateSidx_sizes_tile (sidxOf : Item → Option Sidx) (all items : List Item) (st0 st : St) (p : Nat)
+    (add : Bool) (others : List Nat) (o : IndexOut)
+    (h0 : st0.segs = []) (hc : Contig items p) (hm : ∀ it ∈ items, segmentBox it.kind = true)
+    (h : groupItems st0 sidxOf items = some st) (hu : updateSidx all st add others = .index o) :
+    (∀ i (hi : i < st.segs.length), p + refStart o.sizes i = (st.segs[i]).startPos) ∧
+    p + o.sizes.sum = p + (items.map (·.size)).sum := by
+  have hinv : Inv st p (p + (items.map (·.size)).sum) :=
+    group_inv sidxOf items st0 st p p hc hm ⟨by simp [h0, Tiles], by simp [h0]⟩ h
+  have hsz : o.sizes = st.segs.map Seg.size := by
+    unfold updateSidx at hu
+    split at hu
+    · cases hu
+    · split at hu
+      · simp only [UpdOut.index.injEq] at hu; subst hu; rfl
+      · split at hu
+        · cases hu
+        · split at hu
+          · cases hu
+          · simp only [UpdOut.index.injEq] at hu; subst hu; rfl
+  rw [hsz]
+  exact tiles_refs st.segs p _ hinv.1
+
+/-- non-vacuity: `emsg moof mdat | moof mdat` from byte 100 with the start-on-moof flag (two segments, the first one
+    opened by the emsg), behind two init boxes: the new index goes in front of the emsg (top-level box number 2) -/
+example :
+    let media : List Item := [⟨.emsg, 100, 10⟩, ⟨.moof, 110, 20⟩, ⟨.mdat, 130, 5⟩, ⟨.moof, 135, 20⟩, ⟨.mdat, 155, 7⟩]
+    let all : List Item := [⟨.ftyp, 0, 24⟩, ⟨.moov, 24, 76⟩] ++ media
+    (groupItems { startOnMoof := true } (fun _ => none) media).map (fun st => updateSidx all st true []) =
+      some (.index ⟨[35, 27], 0, some 2⟩) := by decide
+/-- … and with an emsg of 40 bytes inserted into the second segment's fragment through `Fragment.AddEmsg` the second
+    reference grows by 40 bytes; inserted into the first fragment of the first segment of a file without emsg it becomes
+    the segment's first box, which `insertSidx` does not find among the boxes of the file (error return) -/
+example :
+    let media : List Item := [⟨.emsg, 100, 10⟩, ⟨.moof, 110, 20⟩, ⟨.mdat, 130, 5⟩, ⟨.moof, 135, 20⟩, ⟨.mdat, 155, 7⟩]
+    let all : List Item := [⟨.ftyp, 0, 24⟩, ⟨.moov, 24, 76⟩] ++ media
+    (groupItems { startOnMoof := true } (fun _ => none) media).map
+      (fun st => updateSidx all (applyOps 162 st [.addEmsg 1 0 [40]]) true []) =
+      some (.index ⟨[35, 67], 0, some 2⟩) := by decide
+example :
+    let media : List Item := [⟨.moof, 100, 20⟩, ⟨.mdat, 120, 5⟩]
+    let all : List Item := [⟨.ftyp, 0, 24⟩, ⟨.moov, 24, 76⟩] ++ media
+    (groupItems {} (fun _ => none) media).map
+      (fun st => updateSidx all (applyOps 125 st [.addEmsg 0 0 [40]]) true []) = some .error := by decide
 /-- the Go functions the models of this property transcribe (committed table `spec/transcribed.json`, checked against
     the current source by the extractor on every run) all still exist -/
 theorem model_sources_exist :
